@@ -205,3 +205,23 @@ package scale
 //@   ensures [no-shrink] s.Min <= lo + (hi - lo) * 1e-10 && s.Max >= hi - (hi - lo) * 1e-10
 //@   ensures [frame]     s.Base == old(s.Base) && s.Clamp == old(s.Clamp)
 //@   assigns *s
+
+// ---------------------------------------------------------------------
+// Log ticks (C17): Nice keeps the domain a proper log domain.
+
+//@ func logb
+//@   inline
+//@   assigns nothing
+
+//@ func Log.spacingAtLevel
+//@   inline
+//@   assigns nothing
+
+//@ func Log.Nice
+//@   model xreal
+//@   requires s != nil && isfinite(s.Min) && isfinite(s.Max) && s.Min <= s.Max && (s.Min > 0 || s.Max < 0)
+//@   ensures [finite]      isfinite(s.Min) && isfinite(s.Max)
+//@   ensures [log-domain]  s.Min <= s.Max && (old(s.Min) > 0 ==> s.Min > 0) && (old(s.Max) < 0 ==> s.Max < 0)
+//@   ensures [no-collapse] (s.Min == old(s.Min) && s.Max == old(s.Max)) || s.Min < s.Max
+//@   ensures [frame]       s.Base == old(s.Base) && s.Clamp == old(s.Clamp)
+//@   assigns *s
